@@ -33,9 +33,13 @@ class SyncProducer:
         if not self.period:
             raise ValueError("A valid transmission period has not been given")
 
+        # Stop an already running transmission, otherwise the reference to its
+        # task is overwritten and it can never be stopped
+        self.stop()
         self._task = self.network.send_periodic(self.cob_id, [], self.period)
 
     def stop(self):
         """Stop periodic transmission of SYNC message."""
         if self._task is not None:
             self._task.stop()
+            self._task = None
